@@ -3121,9 +3121,9 @@ def groupby_scan(
     if not is_duck_array(array):
         array = np.asarray(array)
 
-    if isinstance(func, str):
-        agg = AGGREGATIONS[func]
-    assert isinstance(agg, Scan)
+    agg = AGGREGATIONS[func] if isinstance(func, str) else func
+    if not isinstance(agg, Scan):
+        raise ValueError(f"`func` must be the name of a scan or a Scan instance. Received {func!r}.")
     agg = copy.deepcopy(agg)
 
     if (agg == AGGREGATIONS["ffill"] or agg == AGGREGATIONS["bfill"]) and array.dtype.kind != "f":
